@@ -3,8 +3,8 @@
 Requests (see exec/src/bin/c20.rs, lean/Compute/Drv/C20.lean):
   rbf_p form var ls n x1 y1 … xn yn              -> = k1 … kn      (scalar forward on each pair)
   rq_p  form var alpha ls n x1 y1 … xn yn        -> = k1 … kn
-  rbf_m kind var ls rx cx <rx*cx> ry cy <ry*cy>  -> = nrows ncols <data>
-  rq_m  kind var alpha ls rx cx <..> ry cy <..>  -> = nrows ncols <data>
+  rbf_m kind var ls rx cx <rx*cx> ry cy <ry*cy>  -> = nrows ncols <matrix data> <scalar forward at every (x_i, y_j)>
+  rq_m  kind var alpha ls rx cx <..> ry cy <..>  -> = nrows ncols <matrix data> <scalar forward at every (x_i, y_j)>
 form: 0 = f64, 1 = &f64;  kind: 0 = Vector, 1 = &Vector, 2 = Matrix, 3 = &Matrix (a Vector has rx = 1).
 All forms/kinds of one kernel are instantiations of one macro body, hence share one model.
 """
@@ -20,7 +20,8 @@ REQUIRED_THEOREMS = [
     "Cv.C20.rbf_new_iff", "Cv.C20.rbf_new_rejects", "Cv.C20.rq_new_iff", "Cv.C20.rq_new_rejects",
     "Cv.C20.rbf_symm", "Cv.C20.rbf_diag", "Cv.C20.rbf_pos", "Cv.C20.rbf_le_var", "Cv.C20.rbf_antitone",
     "Cv.C20.rq_symm", "Cv.C20.rq_diag", "Cv.C20.rq_pos", "Cv.C20.rq_le_var", "Cv.C20.rq_antitone",
-    "Cv.C20.rbf_matrix_form_entry", "Cv.C20.rq_matrix_form_entry", "Cv.C20.matrix_form_empty",
+    "Cv.C20.rbf_matrix_form_entry", "Cv.C20.rq_matrix_form_entry",
+    "Cv.C20.rbf_matrix_form_eq_scalar", "Cv.C20.rq_matrix_form_eq_scalar",
     "Cv.C20.rbf_gram_symm", "Cv.C20.rq_gram_symm", "Cv.C20.rbf_gram_diag", "Cv.C20.rq_gram_diag",
     "Cv.C20.rbf_kernel_psd", "Cv.C20.rq_kernel_psd_model", "Cv.C20.rbf_gram_psd", "Cv.C20.rq_gram_psd",
     "Cv.C20.rbf_gram_posSemidef", "Cv.C20.rq_gram_posSemidef",
@@ -36,26 +37,26 @@ NOT_PROVED = [
     "floating-point rounding: the theorems are about exact (real) arithmetic; at f64 the scalar form is checked by the "
     "oracle against the exact value within 400 eps (1 + |exponent|) relative, and 0 <= k <= var, k(x,x) = var, symmetry "
     "hold bit for bit on every generated case",
-    "the matrix form evaluates x^2 + y^2 - 2xy: at f64 its entries carry a relative error up to ~eps (x^2 + y^2) / l^2 "
-    "(cancellation), so off-diagonal entries can exceed var by that much and the f64 Gram matrix can have eigenvalues "
-    "down to -n eps var max(x^2)/l^2; the oracle bounds both by that cancellation-aware tolerance and counts the cases "
-    "that exceed the cancellation-free tolerance (evidence: oracle_observations)",
+    "positive semi-definiteness of the f64 Gram matrix is only searched: smallest eigenvalue >= -2.5 n max_ij(400 eps "
+    "(1 + |exponent|) k_ij) (rigorous eigvalsh margin, exact LDL^T certificate for n <= 10); the theorem is over the reals",
     "accuracy of libm exp / pow",
-    "Gram symmetry at f64 is proved for any scalar type with commutative + and *; that IEEE + and * commute is assumed, "
-    "not proved (Lean's Float is opaque)",
+    "matrix form = scalar form entry by entry and Gram symmetry are proved for every scalar type satisfying "
+    "powi(a,2) = a*a resp. (a-b)*(a-b) = (b-a)*(b-a); that IEEE doubles satisfy them is assumed, not proved (Lean's "
+    "Float is opaque) - the oracle checks both bit for bit on every generated case",
 ]
 TRUSTED = ["IEEE f64 arithmetic and glibc exp/pow shared by both executors",
            "LLVM powi lowering modelled as square-and-multiply (Cv.powi), measured bit-exact"]
-ASSUMPTIONS = ["finite f64 inputs; point sets non-empty (an empty point set panics in is_matrix: compared with the model only)"]
+ASSUMPTIONS = ["finite f64 inputs; point sets non-empty (an empty point set yields an empty 0 x m / n x 0 matrix since F50: shape checked, compared with the model)"]
 
 EPS = 2.0 ** -52
 MINNORM = 2.0 ** -1022
 
 # Tolerance constants, >= 100x the maximum ratio observed on the current tree (CV_C20_CALIB=1 prints them):
-# seeds 1..5 + default quick and the thorough tier gave  scalar rbf 1.61, scalar rq 1.76, matrix rbf 0.78,
-# matrix rq 0.71 (in units of eps * cond * exact value); no inversion of the monotone order was ever observed.
+# seeds 1..5 + default quick and the thorough tier gave  scalar rbf 1.61, scalar rq 1.76, matrix lines 2.25 (in units of
+# eps * cond * exact value; the matrix form is bit-identical to the scalar form since F50 and uses the same bound);
+# no inversion of the monotone order was ever observed.
 C_SCALAR = 400.0     # scalar form vs exact value: |k - k*| <= C eps (1 + |arg|) k*          (RBF), (1 + alpha) (RQ)
-C_MATRIX = 400.0     # matrix form vs exact value: |K_ij - k*| <= k* expm1(C eps (1 + cond_ij))
+PSD_FACTOR = 2.5     # Gram PSD: lambda_min >= -PSD_FACTOR n max_ij tol_ij, i.e. -n eps var c with c >= 1000 (observed <= 8.6)
 C_MONO = 4.0         # monotonicity along sorted distances: k(d') <= k(d) (1 + C eps) for d' > d
 CALIB = {}           # filled when CV_C20_CALIB=1: maximum observed ratios
 
@@ -257,8 +258,6 @@ def gen(rng, tier):
             cover["max_points"] = max(cover["max_points"], n, m)
             sizes.add((n, m))
     cover["sizes_seen"] = len(sizes)
-    global COVER
-    COVER = cover
     return lines, cover
 
 
@@ -277,12 +276,12 @@ def corpus():
     ls.append(mk_mat("rbf_m", 2, [two_, half], 1, 1, [0.5], 2, 2, [0.25, 0.5, 0.75, 1.0]))
     ls.append(mk_mat("rbf_m", 3, [two_, half], 3, 3, [0.1 * i for i in range(9)], 3, 3, [0.1 * i for i in range(9)]))
     ls.append(mk_mat("rq_m", 2, [two_, 3.0, half], 3, 3, [0.1 * i for i in range(9)], 1, 9, [0.1 * i for i in range(9)]))
-    # empty point sets: is_matrix divides by zero rows -> panic on both sides
+    # empty point sets: 0 x m / n x 0 result since F50 (the former dot_t route panicked in is_matrix)
     ls.append(mk_mat("rbf_m", 0, [two_, half], 1, 0, [], 1, 2, [0.0, 1.0]))
     ls.append(mk_mat("rbf_m", 1, [two_, half], 1, 2, [0.0, 1.0], 1, 0, [], ))
-    # cancellation in x^2 + y^2 - 2xy (matrix form): var = 1, l = 0.01, points 913.436 and 913.4360001 give the
-    # off-diagonal Gram entry 1.000001164153896 > var (scalar form: 0.99999999995); inside the cancellation-aware
-    # tolerance, counted in oracle_observations, reported as `matrix-form:cancellation` when STRICT_CANCELLATION is set
+    # F50 witness (cancellation in the former x^2 + y^2 - 2xy matrix form): var = 1, l = 0.01, points 913.436 and
+    # 913.4360001 gave the off-diagonal Gram entry 1.000001164153896 > var (scalar form: 0.99999999995), an
+    # indefinite Gram matrix; the oracle demands entry <= var and bit equality with the scalar form
     ls.append(mk_mat("rbf_m", 0, [one, 0.01], 1, 2, [913.436, 913.4360001], 1, 2, [913.436, 913.4360001]))
     ls.append(mk_pairs("rbf_p", 0, [one, 0.01], [(913.436, 913.4360001), (913.4360001, 913.436)]))
     return ls
@@ -374,44 +373,43 @@ def ldl_is_pd(A):
     return True
 
 
-def check_matrix(M, i, p, toks, fails, stats):
+def check_matrix(M, i, p, toks, fails):
     import numpy as np
     rq, var, alpha, ls = p["rq"], p["var"], p["alpha"], p["ls"]
     name = "rq" if rq else "rbf"
     xs, ys = p["dx"], p["dy"]
     n, m = len(xs), len(ys)
-    if len(toks) < 2 or int(toks[0]) != n or int(toks[1]) != m or len(toks) != 2 + n * m:
+    if len(toks) < 2 or int(toks[0]) != n or int(toks[1]) != m or len(toks) != 2 + 2 * n * m:
         fails.append(Failure(i, name + ":matrix:shape", "%d x %d points gave shape %s x %s with %d entries" % (
-            n, m, toks[0] if toks else "?", toks[1] if len(toks) > 1 else "?", len(toks) - 2)))
+            n, m, toks[0] if toks else "?", toks[1] if len(toks) > 1 else "?", (len(toks) - 2) // 2)))
         return
-    K = [[h2f(toks[2 + a * m + b]) for b in range(m)] for a in range(n)]
-    l2 = ls * ls
+    T = toks[2:2 + n * m]          # matrix form
+    S = toks[2 + n * m:]           # scalar form on the same pairs (f64 impl for even kinds, &f64 for odd kinds)
+    K = [[h2f(T[a * m + b]) for b in range(m)] for a in range(n)]
     maxtol = 0.0
     for a in range(n):
         for b in range(m):
             k = K[a][b]
             x, y = xs[a], ys[b]
-            if not (k == k) or k < 0.0:
-                fails.append(Failure(i, name + ":matrix:range", "entry (%d,%d) = %r for points %r, %r" % (a, b, k, x, y)))
+            if not (k == k) or k < 0.0 or k > var:
+                fails.append(Failure(i, name + ":matrix:range", "entry (%d,%d) = %r for points %r, %r is outside [0, var = %r]" % (a, b, k, x, y, var)))
+                return
+            # since F50 the matrix form performs the scalar form's operations on every pair: bit equality
+            if T[a * m + b] != S[a * m + b]:
+                fails.append(Failure(i, name + ":matrix:entry", "entry (%d,%d) = %r differs from the scalar form %r at points %r, %r" % (
+                    a, b, k, h2f(S[a * m + b]), x, y), S[a * m + b]))
                 return
             ref, q = kref(M, rq, var, alpha, ls, x, y)
-            # cancellation-aware conditioning: x^2 + y^2 - 2xy carries an absolute error ~ eps (x^2 + y^2)
-            cond = 1 + (x * x + y * y) / l2 + (float(alpha) if rq else float(q))
-            rel = math.expm1(min(C_MATRIX * EPS * cond, 50.0))
-            tol = rel * float(ref) + MINNORM * max(1.0, var)
+            cond = (1 + float(alpha)) if rq else (1 + float(q))
+            tol = C_SCALAR * EPS * cond * float(ref) + MINNORM * max(1.0, var)
             err = float(abs(M.mpf(k) - ref))
             maxtol = max(maxtol, tol)
             if ref > 1e-290:
                 calib("matrix_" + name, err / (EPS * cond * float(ref)))
             if err > tol:
-                fails.append(Failure(i, name + ":matrix:entry", "entry (%d,%d) = %r for points %r, %r; scalar form (exact) %s; error %.3g > tolerance %.3g" % (
+                fails.append(Failure(i, name + ":matrix:value", "entry (%d,%d) = %r for points %r, %r; exact %s; error %.3g > tolerance %.3g" % (
                     a, b, k, x, y, M.nstr(ref, 20), err, tol), M.nstr(ref, 20)))
                 return
-            if k > var:
-                stats["entries_above_var"] = stats.get("entries_above_var", 0) + 1
-                stats["max_excess_rel"] = max(stats.get("max_excess_rel", 0.0), (k - var) / var)
-                if stats.get("witness") is None:
-                    stats["witness"] = (i, "matrix form: entry (%d,%d) = %r exceeds var = %r for points %r, %r (l = %r): cancellation in x^2 + y^2 - 2xy" % (a, b, k, var, x, y, ls))
     gram = xs == ys
     if not gram:
         return
@@ -423,19 +421,13 @@ def check_matrix(M, i, p, toks, fails, stats):
             if K[a][b] != K[b][a]:
                 fails.append(Failure(i, name + ":gram:symmetry", "Gram entries (%d,%d) = %r and (%d,%d) = %r differ" % (a, b, K[a][b], b, a, K[b][a])))
                 return
-    # positive semi-definiteness up to the entry-wise backward error of the formulation:
-    # K = G + E with G (exact Gram matrix) PSD and |E_ij| <= tol_ij, hence lambda_min(K) >= -n max tol_ij.
-    tau = n * maxtol
+    # positive semi-definiteness at working precision: K = G + E with G (exact Gram matrix) PSD and
+    # |E_ij| <= tol_ij = C eps cond_ij k*_ij <= ~C eps var, hence lambda_min(K) >= -n max tol_ij  (= -n eps var c).
+    tau = PSD_FACTOR * n * maxtol
     A = np.array(K, dtype=float)
     lam = float(np.linalg.eigvalsh(A)[0])
     slack = 16 * n * EPS * float(np.linalg.norm(A, 2))      # error of eigvalsh itself
-    strict = 100 * n * EPS * var
-    calib("psd_over_strict_" + name, max(0.0, -lam) / (n * EPS * var))
-    if lam < -strict - slack:
-        stats["gram_below_strict"] = stats.get("gram_below_strict", 0) + 1
-        stats["min_eig_rel"] = min(stats.get("min_eig_rel", 0.0), lam / var)
-        if stats.get("witness") is None:
-            stats["witness"] = (i, "matrix form: %dx%d Gram matrix has smallest eigenvalue %.6g = %.3g var < -100 n eps var (cancellation in x^2 + y^2 - 2xy; l = %r)" % (n, n, lam, lam / var, ls))
+    calib("psd_" + name, max(0.0, -lam) / (n * EPS * var))
     if lam < -tau - slack:
         fails.append(Failure(i, name + ":gram:psd", "smallest eigenvalue of the %dx%d Gram matrix is %.6g < -%.3g (var = %r)" % (n, n, lam, tau, var)))
         return
@@ -448,17 +440,9 @@ def check_matrix(M, i, p, toks, fails, stats):
             fails.append(Failure(i, name + ":gram:psd", "exact LDL^T: Gram matrix + %.3g I is not positive definite (n = %d)" % (tau + slack, n)))
 
 
-STATS = {}
-COVER = None   # the coverage dict handed to the runner by gen(); the oracle adds its observations to it
-# Set to True to report the float-level consequence of the cancellation in the matrix form (entries above var,
-# Gram eigenvalue below -100 n eps var) as an oracle failure with the stable key `matrix-form:cancellation`.
-STRICT_CANCELLATION = False
-
-
 def oracle(lines, impl):
     M = mp()
     fails = []
-    STATS.clear()
     for i, (l, rep) in enumerate(zip(lines, impl)):
         st, toks = parse_reply(rep)
         if st == "skip":
@@ -475,25 +459,23 @@ def oracle(lines, impl):
             continue
         matrix = p["op"].endswith("_m")
         if matrix and (len(p["dx"]) == 0 or len(p["dy"]) == 0):
-            continue   # outside the quantifier (empty point set): compared with the model only
+            # outside the quantifier (empty point set): an empty matrix of the right shape, compared with the model
+            if st != "ok" or toks != [str(len(p["dx"])), str(len(p["dy"]))]:
+                fails.append(Failure(i, name + ":matrix:shape", "empty point set: reply %s %r" % (st, toks[:4])))
+            continue
         if st != "ok":
             fails.append(Failure(i, name + ":panic", "valid parameters %r, reply %s" % (params, st)))
             continue
         try:
             if matrix:
-                check_matrix(M, i, p, toks, fails, STATS)
+                check_matrix(M, i, p, toks, fails)
             else:
                 check_scalar(M, i, p, toks, fails)
         except (ValueError, IndexError) as e:
             fails.append(Failure(i, name + ":malformed", "reply could not be read: %r" % (e,)))
     if os.environ.get("CV_C20_CALIB"):
         import sys
-        print("C20 CALIB %r STATS %r" % (CALIB, STATS), file=sys.stderr)
-    if COVER is not None:
-        COVER["oracle_observations"] = {k: v for k, v in STATS.items() if k != "witness"}
-    if STRICT_CANCELLATION and STATS.get("witness") is not None:
-        i, msg = STATS["witness"]
-        fails.append(Failure(i, "matrix-form:cancellation", msg))
+        print("C20 CALIB %r" % (CALIB,), file=sys.stderr)
     return fails
 
 
